@@ -561,7 +561,7 @@ CHECKS = {
             "covers": {"VerifC12Heads": ["malformed-handled", "burst", "valid-sent"]},
         }, {
             "pkg": ODB, "funcs": ["VerifSysMalformed"],
-            "params": {"quick": {"H": 1}, "thorough": {"H": 2}},
+            "params": {"quick": {"H": 1}, "thorough": {"H": 1}},
             "max_paths": {"quick": 60000, "thorough": 400000},
             "timeout": {"quick": "10m", "thorough": "60m"},
             "covers": {"VerifSysMalformed": ["raw-bytes", "ill-typed", "malformed-heads", "misrouted-valid-head", "foreign-head-for-A", "via-direct-channel", "via-topic-A", "via-topic-B", "burst", "valid-after", "address-of-a-failed-open"]},
